@@ -547,6 +547,15 @@ ForksTravelObs(s, T0, T1, rp) ==
                 /\ (Has(T0, InfoOf(p)) <=> Has(T1, InfoOf(tgt))) /\ (Has(T0, InfoOf(p)) => T1[InfoOf(tgt)] = T0[InfoOf(p)])
 
 
+(* a regular file that is still in its place after a rename / move (a rename to its own name, a move into its own
+   folder, a refused request) keeps its forks and partial data unchanged *)
+ForksStayObs(s, T0, T1, rp) ==
+  LET pr == ParsePath(s.path, {})
+      p == Resolve(rp, pr.items, Val(s.name))
+  IN (s.kind \in {"rename", "move"} /\ pr.st = "ok" /\ PlainName(Val(s.name)) /\ Has(T0, p) /\ T0[p].k = "file"
+        /\ Has(T1, p) /\ T1[p] = T0[p])
+     => \A x \in {IncOf(p), RsrcOf(p), InfoOf(p)} : Has(T0, x) => (Has(T1, x) /\ T1[x] = T0[x])
+
 (* the tree a well-formed request asks for, stated as an image of paths (no file system calls) *)
 Image(T0, p, q, withSides) ==
   LET moved == Under(T0, p) \cup (IF withSides THEN {x \in {IncOf(p), RsrcOf(p), InfoOf(p)} : Has(T0, x)} ELSE {})
